@@ -158,6 +158,17 @@ func (wc *worldChecker) check(rel string, withTests, external bool) (*tcPackage,
 // (with their tests) and returns them; errs is the deduplicated, sorted,
 // truncated list of error messages in "p/file.go:line:col: message" form.
 func typecheckWorld(root string, rels ...string) (pkgs []*tcPackage, errs []string) {
+	pkgs, errs = typecheckWorldAll(root, rels...)
+	if len(errs) > 6 {
+		errs = errs[:6]
+	}
+	return pkgs, errs
+}
+
+// typecheckWorldAll is typecheckWorld without the cut to six messages (an
+// oracle that sorts errors into "the user's" and "the generated code's" must
+// see all of them).
+func typecheckWorldAll(root string, rels ...string) (pkgs []*tcPackage, errs []string) {
 	wc := &worldChecker{root: root, fset: token.NewFileSet(), cache: map[string]*types.Package{}}
 	seen := map[string]bool{}
 	for _, rel := range rels {
@@ -181,8 +192,5 @@ func typecheckWorld(root string, rels ...string) (pkgs []*tcPackage, errs []stri
 		}
 	}
 	sort.Strings(errs)
-	if len(errs) > 6 {
-		errs = errs[:6]
-	}
 	return pkgs, errs
 }
